@@ -28,6 +28,21 @@ def larger_cases(seed, ops, tier):
         calls = [(op, n, next_, ncols, nphase, nblock, rng.below(2), mode, data)]
         cases.append({"line": nc.seq_line(1 << s, rng.choice([1, 2, 3, 5, 16]), calls), "key": ["NTT", "INTT", "extendPol"][op],
                       "calls": calls, "tag": "big:s=%d,d=%d" % (s, d)})
+    # wide matrices (row buffers, chunked copies): few rows, column counts around powers of two
+    for ncols in ([64, 127, 128, 129, 256] if tier == "quick" else [31, 32, 33, 64, 127, 128, 129, 255, 256, 257, 384]):
+        for d in (2, 3):
+            for op in ops:
+                for nphase in (1, 2, 3):
+                    for mode in ((0, 1) if op == 2 else (0, 1, 2)):
+                        n = 1 << d
+                        e = d + 1
+                        next_ = (1 << e) if op == 2 else 0
+                        rows = n if (op != 2 or mode == 1) else next_
+                        data = nc.gen_data(rng, rows * ncols)
+                        nblock = rng.choice([1, 1, 2, 3])
+                        calls = [(op, n, next_, ncols, nphase, nblock, rng.below(2), mode, data)]
+                        cases.append({"line": nc.seq_line(1 << (d + rng.below(2)), rng.choice([1, 2, 5]), calls), "key": ["NTT", "INTT", "extendPol"][op],
+                                      "calls": calls, "tag": "wide:ncols=%d,d=%d,ph=%d,m=%d" % (ncols, d, nphase, mode)})
     return cases
 
 
